@@ -235,6 +235,12 @@ func copyHeap(h map[string]*MemNode) map[string]*MemNode {
 }
 
 func (e *Engine) inline(st *State, fn *ssa.Function, args []Value, bindings []Value, pos token.Pos) (*Value, *State) {
+	if p := fn.Package(); p != nil && e.W.Repo[p.Pkg.Path()] {
+		n := shortFn(fn)
+		if b := fn.Name(); !(len(b) > 1 && (b[0] == 'v' || b[0] == 'V') && b[1] >= 'A' && b[1] <= 'Z') && !strings.Contains(n, ".v") {
+			e.realFns[n] = true // a function of the code under verification executed from its real body
+		}
+	}
 	if e.depth >= e.W.MaxDepth {
 		panic(unsupported("inline depth exceeded at " + shortFn(fn)))
 	}
